@@ -118,7 +118,44 @@ def rewrite_expr_tokens(toks, known_types):
         i+=1
     return out
 
+def preprocess(src):
+    """line-preserving text pre-pass for block forms the token rewriter does not know:
+    `cdef:` blocks (each line of the block becomes its own `cdef ...` declaration), `cdef struct/enum/union/extern ...:` blocks (dropped: declarations only),
+    and the legacy integer loop `for i from a <= i < b:` (-> `for i in range(a, b):`)."""
+    lines = src.split('\n')
+    out = list(lines)
+    i = 0
+    while i < len(lines):
+        ln = lines[i]
+        m = re.match(r'^(\s*)c(p?)def\s*:\s*(#.*)?$', ln)
+        m2 = re.match(r'^(\s*)cdef\s+(packed\s+)?(struct|enum|union|extern)\b.*:\s*(#.*)?$', ln)
+        if m or m2:
+            ind = len((m or m2).group(1))
+            out[i] = (m or m2).group(1) + 'pass'
+            j = i + 1
+            while j < len(lines):
+                lj = lines[j]
+                if lj.strip() == '' or lj.lstrip().startswith('#'):
+                    j += 1; continue
+                indj = len(lj) - len(lj.lstrip())
+                if indj <= ind: break
+                if m:
+                    out[j] = ' ' * ind + 'cdef ' + lj.strip()
+                else:
+                    out[j] = ' ' * ind + 'pass'
+                j += 1
+            i = j; continue
+        m3 = re.match(r'^(\s*)for\s+(\w+)\s+from\s+(.+?)\s*(<=|<)\s*\2\s*(<=|<)\s*(.+?)\s*:\s*(#.*)?$', ln)
+        if m3:
+            lo = m3.group(3) if m3.group(4) == '<=' else f'({m3.group(3)}) + 1'
+            hi = m3.group(6) if m3.group(5) == '<' else f'({m3.group(6)}) + 1'
+            out[i] = f'{m3.group(1)}for {m3.group(2)} in range({lo}, {hi}):'
+        i += 1
+    return '\n'.join(out)
+
+
 def convert(src):
+    src = preprocess(src)
     facts = Facts(); known_types=set()
     # pre-scan cdef class names as types
     for m in re.finditer(r'^\s*cdef\s+class\s+(\w+)', src, re.M): known_types.add(m.group(1))
